@@ -40,14 +40,23 @@ Uniq classify(double lat1, double lat2, L lon12, double s12) {
   return u;
 }
 
-// Known finding G1 (known_findings.json): inverse problem between two nearly equatorial points close to
-// (or beyond) the conjugate longitude on ellipsoids with |f| >= 0.19 returns a geodesic that misses
-// point 2 (by up to ~1500 km at f = 0.2).  Region, decided from the inputs only:
+// Known finding G1 (known_findings.json): on ellipsoids with |f| >= 0.19 the inverse solvers fail to converge
+// to the geodesic joining the points when the pair lies in the (generalised) antipodal region: the returned
+// geodesic misses point 2 by millimetres up to thousands of km.  Region, decided from the inputs only, in the
+// astroid coordinates of the theory (lamscale = |f| pi cos(beta1), betscale = lamscale cos(beta1)):
+//   oblate : |beta1 + beta2| <= 0.01 betscale (incl. lat1 = -lat2 exactly) and pi - |lam12| <= 3 lamscale
+//   any f  : |lat1|, |lat2| <= 0.5 deg and |lon12| >= 180 min(1, 1-f) - 15 deg (nearly equatorial, near conjugate)
 bool in_G1(double f, double lat1, double lat2, L lon12) {
   if (!(std::fabs(f) >= 0.19)) return false;
-  if (!(std::fabs(lat1) <= 0.5 && std::fabs(lat2) <= 0.5)) return false;
   L conj = 180 * std::min<L>(1, 1 - (L)f);
-  return fabsl(lon12) >= conj - 15;
+  if (std::fabs(lat1) <= 0.5 && std::fabs(lat2) <= 0.5 && fabsl(lon12) >= conj - 15) return true;
+  if (f > 0) {
+    L b1 = atanl((1 - (L)f) * tanl((L)lat1 * ref::DEG_L)), b2 = atanl((1 - (L)f) * tanl((L)lat2 * ref::DEG_L));
+    L cb = std::max(cosl(b1), cosl(b2));
+    L lamscale = (L)f * ref::PI_L * cb, betscale = lamscale * cb;
+    if (fabsl(b1 + b2) <= 0.01L * betscale && ref::PI_L - fabsl(lon12) * ref::DEG_L <= 3 * lamscale) return true;
+  }
+  return false;
 }
 // a failure inside the region of a listed known finding is reported as KNOWN, not as a violation
 void apply_known(Verdict& v, double f, double lat1, double lat2, L lon12) {
@@ -81,7 +90,7 @@ Verdict check_join(const J& r) {
   L p2[3]; ref::to_cart(E, lat2, lon2, p2);
   // azi1 is a double in degrees: half an ulp of it displaces the end point by m12 * dazi
   L repr = 2.3e-16L * fabsl((L)o.azi1) * ref::DEG_L * fabsl(R.m12);
-  // points closer together than the documented accuracy: the azimuth is not determined at that accuracy,
+  // points closer together than 4x the documented accuracy: the azimuth is not determined at that accuracy,
   // and any heading lands within 2 s12 of point 2
   L shortline = (L)o.s12 < 4 * doc_tol(solver, a, f) ? 2 * fabsl((L)o.s12) : 0;
   v.le(ref::dist3(p2, R.r), tolp + repr + shortline, "ODE from point 1 with (azi1, s12) vs point 2 [m]");
